@@ -108,6 +108,13 @@ def c11_decls(tier):
     for r in ("i16", "i64"):
         variants = [Variant("V0", lit="-200")] + [Variant("V%d" % i) for i in range(1, 300)]
         out.append(EnumDecl(r, variants, tag={"family": "C11c-size", "n": 300, "start": -200}))
+    # (f) the whole 8-bit types, and 255 values with an early / a late hole, under every feature in every mode (table offsets and
+    #     indices beyond the positive half of i8: seed C11-r6m2)
+    for r in ("i8", "u8"):
+        for d in enums.family_L(r, renames=False):
+            d.tag = {"family": "C11f-8bit-large", "kind": d.tag.get("kind")}
+            d.full_config = True
+            out.append(d)
     # (d) foreign attributes and doc comments on enum and variants
     foreign_enum = [
         ("pre", "/// a doc comment"), ("pre", "#[doc = \"doc attr\"]"), ("pre", "#[allow(dead_code)]"),
@@ -196,9 +203,11 @@ def c11(tier):
     subs = []
     for i, d in enumerate(decls):
         big = len(d.variants) > 1000
-        b = dict(x1_depth=1, x2_extra=1, x2_cap=5)
+        b = dict(x1_depth=1, x2_extra=1, x2_cap=5, consumers=False)
         if big:
-            b = dict(x1_depth=1, x2_extra=0, x2_cap=1)
+            b = dict(x1_depth=1, x2_extra=0, x2_cap=1, consumers=False)
+        if len(d.variants) > 64:
+            b.update(range_x1_depth=1, range_x2_extra=0, range_pair_step=977)
         if getattr(d, "full_config", False):
             # every feature in every iterator mode: the enum's name meets every generated item
             for j, m in enumerate(({}, {"iter": "table", "as_str": "table", "from_str": "table", "FromStr": "table"},
